@@ -11,6 +11,12 @@
 //!   C14 sign base=<B> k=<k> end=<reserve>                   -> ok len=<L> pad=… pad2=… | err toosmall
 //!     end-to-end `Builder::sign` with a signer that reports `reserve`; B and k are those of the
 //!     COSE structure that signer produces; the reply is read from the signature box of the output.
+//!   C14 save base=<B> k=<k> reserve=<r> direct=<0|1> t0=<T> a1=<A>  -> ok same sig=<n> dhpad=<p> dhpad2=<-|m>
+//!                                                                   | ok shorter=<d> | ok longer=<d> | err toosmall | err jumbf
+//!     the same end-to-end run seen as `save_to_stream`: T = CBOR size of the DataHash assertion written with the
+//!     placeholder (= size of the final, padded one), A = size of the final DataHash with its pads removed;
+//!     `same`: the hashed exclusion range has exactly the length of the manifest finally embedded.
+//!     direct=1: the signer handles COSE itself (`direct_cose_handling`) and returns B bytes.
 
 use std::io::Cursor;
 
@@ -282,11 +288,15 @@ fn run_cose(run: &mut Run, rng: &mut Rng) {
             cose_case(run, cfg, Some(base.saturating_sub(d)), rng, name);
         }
         // every reserve (thorough: first two configurations; others every boundary + stride)
-        if thorough && ci < 2 {
+        if thorough && (ci < 2 || ci == 3 || ci == 6) {
             for over in 0..=70000usize {
                 cose_case(run, cfg, Some(base + over), rng, name);
             }
         } else {
+            // every reserve up to +3000 (covers the 24 and 256 boundaries of pad and of pad2 exhaustively)
+            for over in 81..=3000usize {
+                cose_case(run, cfg, Some(base + over), rng, name);
+            }
             for over in &overs {
                 cose_case(run, cfg, Some(base + over), rng, name);
             }
@@ -423,7 +433,7 @@ fn run_dh(run: &mut Run, rng: &mut Rng) {
             dh_case(run, cfg, 10, None, a + 10 - d - 10, name);
         }
         // from an empty pad (byte at a time all the way): small targets, and the three header boundaries
-        let from_zero: Vec<usize> = if thorough { (0..=600).collect() } else { (0..=300).step_by(1).collect() };
+        let from_zero: Vec<usize> = if thorough { (0..=3000).collect() } else { (0..=700).collect() };
         for g in from_zero {
             dh_case(run, cfg, 0, None, a + g, name);
         }
@@ -435,7 +445,7 @@ fn run_dh(run: &mut Run, rng: &mut Rng) {
         }
         // every target up to +70000 (thorough: every value for the first configuration), started
         // from a pad close to the target so that a case costs a few steps
-        let all: Vec<usize> = if thorough && ci == 0 {
+        let all: Vec<usize> = if thorough && ci < 2 {
             (0..=70000).collect()
         } else {
             let mut v = bumps.clone();
@@ -456,6 +466,14 @@ fn run_dh(run: &mut Run, rng: &mut Rng) {
         for g in 0..=40 {
             dh_case(run, cfg, 10, None, a + g, "pad10");
         }
+    }
+    // witness of `datahash_monotone_full_false`: pad2 preset, pad of 23 bytes — the current size succeeds,
+    // one byte more is an error (the pad header grows at 24 and the single retry is used up)
+    for (_, cfg) in cfgs.iter() {
+        let cur = dh_len(&build_dh(cfg, 23, Some(0)));
+        dh_case(run, cfg, 23, Some(0), cur, "preset-pad2-witness");
+        dh_case(run, cfg, 23, Some(0), cur + 1, "preset-pad2-witness");
+        dh_case(run, cfg, 23, Some(0), cur + 2, "preset-pad2-witness");
     }
     // caller-set pad2 (pub field) — outcome compared with the model; failures are not demanded away
     let n = if thorough { 4000 } else { 400 };
@@ -510,6 +528,92 @@ impl Signer for ReserveSigner<'_> {
     }
 }
 
+/// A signer that does the COSE processing itself and returns a COSE_Sign1 padded to `produce` bytes.
+struct DirectSigner<'a> {
+    inner: &'a EphemeralSigner,
+    reserve: usize,
+    produce: usize,
+}
+
+impl Signer for DirectSigner<'_> {
+    fn sign(&self, data: &[u8]) -> c2pa::Result<Vec<u8>> {
+        let rs = ReserveSigner { inner: self.inner, reserve: self.produce };
+        c2pa::cose_sign::sign_claim(data, &rs, self.produce, &c2pa::settings::Settings::default())
+    }
+
+    fn alg(&self) -> SigningAlg {
+        self.inner.alg()
+    }
+
+    fn certs(&self) -> c2pa::Result<Vec<Vec<u8>>> {
+        self.inner.certs()
+    }
+
+    fn reserve_size(&self) -> usize {
+        self.reserve
+    }
+
+    fn direct_cose_handling(&self) -> bool {
+        true
+    }
+}
+
+fn cbor_hdr(n: usize) -> usize {
+    if n < 24 {
+        1
+    } else if n < 256 {
+        2
+    } else if n < 65536 {
+        3
+    } else {
+        5
+    }
+}
+
+/// The CBOR content of the (single) `c2pa.hash.data` assertion box in `jumbf`.
+fn data_hash_box(jumbf: &[u8]) -> Option<Vec<u8>> {
+    let label = b"c2pa.hash.data\0";
+    let pos = jumbf.windows(label.len()).position(|w| w == label)?;
+    let mut after = pos + label.len();
+    // the description box may end with a private salt box (`c2sh`) before the content box
+    for _ in 0..3 {
+        let lbox = u32::from_be_bytes(jumbf.get(after..after + 4)?.try_into().ok()?) as usize;
+        if jumbf.get(after + 4..after + 8)? == b"cbor" {
+            return Some(jumbf.get(after + 8..after + lbox)?.to_vec());
+        }
+        after += lbox.max(8);
+    }
+    None
+}
+
+struct DhView {
+    total: usize,
+    unpadded: usize,
+    pad: usize,
+    pad2: Option<usize>,
+    /// length of the last exclusion range (the embedded manifest)
+    manifest_range: Option<u64>,
+}
+
+fn view_data_hash(cbor: &[u8]) -> Option<DhView> {
+    let v: Value = c2pa::verif_hooks::c14::coset::cbor::de::from_reader(cbor).ok()?;
+    let m = v.as_map()?;
+    let get = |k: &str| m.iter().find(|(a, _)| a.as_text() == Some(k)).map(|(_, b)| b);
+    let pad = get("pad")?.as_bytes()?.len();
+    let pad2 = match get("pad2") {
+        Some(b) => Some(b.as_bytes()?.len()),
+        None => None,
+    };
+    let manifest_range = get("exclusions").and_then(|e| e.as_array()).and_then(|a| a.last()).and_then(|r| r.as_map()).and_then(|r| {
+        r.iter().find(|(a, _)| a.as_text() == Some("length")).and_then(|(_, b)| b.as_integer()).and_then(|i| u64::try_from(i).ok())
+    });
+    let mut unpadded = cbor.len() - (cbor_hdr(pad) + pad - 1);
+    if let Some(m2) = pad2 {
+        unpadded -= 5 + cbor_hdr(m2) + m2;
+    }
+    Some(DhView { total: cbor.len(), unpadded, pad, pad2, manifest_range })
+}
+
 const DEFINITION: &str = r#"{
   "claim_generator_info": [{"name": "verif-c14", "version": "1"}],
   "title": "c14",
@@ -532,19 +636,23 @@ fn signature_box(jumbf: &[u8]) -> Option<Vec<u8>> {
 }
 
 fn sign_once(signer: &EphemeralSigner, reserve: usize, format: &str, source: &[u8]) -> Result<(Vec<u8>, Vec<u8>), String> {
+    sign_with(&ReserveSigner { inner: signer, reserve }, true, format, source)
+}
+
+fn sign_with(rs: &dyn Signer, verify_after_sign: bool, format: &str, source: &[u8]) -> Result<(Vec<u8>, Vec<u8>), String> {
     let ctx = Context::new()
-        .with_settings(r#"{"builder": {"thumbnail": {"enabled": false}}}"#)
+        .with_settings(format!(r#"{{"builder": {{"thumbnail": {{"enabled": false}}}}, "verify": {{"verify_after_sign": {verify_after_sign}}}}}"#))
         .map_err(|e| format!("settings {e}"))?;
     let mut builder = Builder::from_context(ctx)
         .with_definition(DEFINITION)
         .map_err(|e| format!("definition {e}"))?;
-    let rs = ReserveSigner { inner: signer, reserve };
     let mut src = Cursor::new(source.to_vec());
     let mut dst = Cursor::new(Vec::new());
     let jumbf = builder
-        .sign(&rs, format, &mut src, &mut dst)
+        .sign(rs, format, &mut src, &mut dst)
         .map_err(|e| match e {
             c2pa::Error::CoseSigboxTooSmall => "toosmall".to_string(),
+            c2pa::Error::JumbfCreationError => "jumbf".to_string(),
             other => format!("other:{other:?}"),
         })?;
     Ok((jumbf, dst.into_inner()))
@@ -566,6 +674,7 @@ fn run_e2e(run: &mut Run, rng: &mut Rng) {
     run.obligations.insert("e2e-fixtures-available".into(), assets.len() == 2);
     // reference signing with the signer's own reserve: learn the unpadded COSE size and map arity
     let mut learned: Option<(usize, usize)> = None;
+    let mut ref_dh: Option<(usize, usize)> = None;
     if let Some((fmt, bytes)) = assets.first() {
         if let Ok((jumbf, _)) = sign_once(&signer, signer.reserve_size(), fmt, bytes) {
             if let Some(sig) = signature_box(&jumbf) {
@@ -573,8 +682,11 @@ fn run_e2e(run: &mut Run, rng: &mut Rng) {
                     learned = Some((ser(&stripped(&s)).len(), map_entries(&s)));
                 }
             }
+            ref_dh = data_hash_box(&jumbf).and_then(|b| view_data_hash(&b)).map(|v| (v.total, v.unpadded));
         }
     }
+    run.obligations.insert("e2e-reference-data-hash".into(), ref_dh.is_some());
+    let (ref_t0, ref_a1) = ref_dh.unwrap_or((0, 0));
     run.obligations.insert("e2e-reference-signing".into(), learned.is_some());
     let Some((base, k)) = learned else { return };
     run.notes.push(format!("e2e: unpadded COSE size {base}, unprotected entries {k}, signer default reserve {}", signer.reserve_size()));
@@ -599,6 +711,7 @@ fn run_e2e(run: &mut Run, rng: &mut Rng) {
                 run.fail(idx, "panic", format!("Builder::sign panicked: {p}"));
             }
             Ok(Err(e)) if e == "toosmall" => {
+                run.case(format!("C14 save base={base} k={k} reserve={reserve} direct=0 t0={ref_t0} a1={ref_a1}"), "err toosmall".into());
                 let idx = run.case(req, "err toosmall".into());
                 run.nontrivial(format!("e2e:{reserve}"));
                 if *over == 0 || *over >= 5 {
@@ -619,6 +732,7 @@ fn run_e2e(run: &mut Run, rng: &mut Rng) {
                 };
                 let idx = run.case(req, reply);
                 run.nontrivial(format!("e2e:{reserve}"));
+                save_case(run, base, k, reserve, false, &jumbf, out.len() - bytes.len(), sig.as_ref().map(|s| s.len()));
                 if sig.as_ref().map(|s| s.len()) != Some(reserve) {
                     run.fail(idx, "e2e-sigbox-size", format!("signature box content {:?} bytes for reserve {reserve}", sig.as_ref().map(|s| s.len())));
                 }
@@ -642,9 +756,110 @@ fn run_e2e(run: &mut Run, rng: &mut Rng) {
     }
 }
 
+/// The `save_to_stream` view of one successful end-to-end signing: is the hashed exclusion range as
+/// long as the manifest that was finally embedded (`embedded` composed bytes)?
+fn save_case(run: &mut Run, base: usize, k: usize, reserve: usize, direct: bool, jumbf: &[u8], embedded: usize, sig_len: Option<usize>) {
+    let Some(v) = data_hash_box(jumbf).and_then(|b| view_data_hash(&b)) else {
+        let idx = run.case(format!("C14 save base={base} k={k} reserve={reserve} direct={} t0=0 a1=0", direct as u8), "harness-error no-data-hash".into());
+        run.fail(idx, "e2e-no-data-hash", "final manifest has no parsable c2pa.hash.data assertion".into());
+        return;
+    };
+    let req = format!("C14 save base={base} k={k} reserve={reserve} direct={} t0={} a1={}", direct as u8, v.total, v.unpadded);
+    let range = v.manifest_range.unwrap_or(0) as usize;
+    let reply = if range == embedded {
+        format!("ok same sig={} dhpad={} dhpad2={}", sig_len.unwrap_or(0), v.pad, opt(v.pad2))
+    } else if embedded < range {
+        format!("ok shorter={}", range - embedded)
+    } else {
+        format!("ok longer={}", embedded - range)
+    };
+    let idx = run.case(req, reply);
+    run.count(if direct { "save:direct" } else { "save:padded-by-sdk" });
+    run.nontrivial(format!("save:{reserve}:{direct}:{base}"));
+    if range != embedded {
+        if direct {
+            // the signer is responsible for the size (Signer::direct_cose_handling); compared with the model only
+            run.count("save:direct-size-differs");
+        } else {
+            run.fail(idx, "e2e-manifest-length-differs", format!(
+                "hashed exclusion range {range} bytes but the embedded manifest has {embedded} bytes (reserve {reserve})"));
+        }
+    }
+}
+
+fn run_e2e_extra(run: &mut Run) {
+    let Ok(signer) = EphemeralSigner::new("c14.test") else { return };
+    let Ok(png) = std::fs::read(vh::common::fixtures().join("sample1.png")) else { return };
+    // unpadded COSE size of this signer
+    let Ok((jumbf, _)) = sign_once(&signer, signer.reserve_size(), "image/png", &png) else { return };
+    let Some((base, k)) = signature_box(&jumbf)
+        .and_then(|s| CoseSign1::from_tagged_slice(&s).ok())
+        .map(|s| (ser(&stripped(&s)).len(), map_entries(&s)))
+    else {
+        return;
+    };
+    let (t0, a1) = data_hash_box(&jumbf).and_then(|b| view_data_hash(&b)).map(|v| (v.total, v.unpadded)).unwrap_or((0, 0));
+    // reserves below the 32-byte floor of the signature placeholder and below the COSE size: a size error
+    for reserve in [0usize, 1, 31, 32, 33, 100, base - 1] {
+        let req = format!("C14 save base={base} k={k} reserve={reserve} direct=0 t0={t0} a1={a1}");
+        run.count("save:reserve-too-small");
+        match guarded(std::panic::AssertUnwindSafe(|| sign_once(&signer, reserve, "image/png", &png))) {
+            Err(p) => {
+                let idx = run.case(req, "panic".into());
+                run.fail(idx, "panic", format!("Builder::sign panicked: {p}"));
+            }
+            Ok(Err(e)) if e == "toosmall" || e == "jumbf" => {
+                run.case(req, format!("err {e}"));
+                run.nontrivial(format!("save-small:{reserve}"));
+            }
+            Ok(Err(e)) => {
+                let idx = run.case(req, "err other".into());
+                run.fail(idx, "e2e-sign-error", format!("reserve {reserve}: {e}"));
+            }
+            Ok(Ok((jumbf, out))) => {
+                let idx = run.case(req, "ok".into());
+                run.fail(idx, "e2e-undersized-reserve-accepted", format!(
+                    "reserve {reserve} < COSE size {base} signed ({} bytes of JUMBF, {} bytes out)", jumbf.len(), out.len()));
+            }
+        }
+    }
+    // direct COSE handling: the signer returns `produce` bytes for a reserve of `reserve`
+    let reserve = base + 500;
+    for produce in [reserve, reserve - 100, reserve + 50, base + 5] {
+        let ds = DirectSigner { inner: &signer, reserve, produce };
+        run.count("save:direct-case");
+        match guarded(std::panic::AssertUnwindSafe(|| sign_with(&ds, false, "image/png", &png))) {
+            Err(p) => {
+                let idx = run.case(format!("C14 save base={produce} k=0 reserve={reserve} direct=1 t0={t0} a1={a1}"), "panic".into());
+                run.fail(idx, "panic", format!("Builder::sign (direct) panicked: {p}"));
+            }
+            Ok(Err(e)) => {
+                let idx = run.case(format!("C14 save base={produce} k=0 reserve={reserve} direct=1 t0={t0} a1={a1}"), format!("err {}", e.split(':').next().unwrap_or("other")));
+                run.fail(idx, "e2e-sign-error", format!("direct signer reserve {reserve} produce {produce}: {e}"));
+            }
+            Ok(Ok((jumbf, out))) => {
+                let sig = signature_box(&jumbf).map(|s| s.len());
+                if sig != Some(produce) {
+                    let idx = run.case(format!("C14 save base={produce} k=0 reserve={reserve} direct=1 t0={t0} a1={a1}"), "harness-error sigbox".into());
+                    run.fail(idx, "e2e-direct-sig-changed", format!("direct signer returned {produce} bytes, signature box holds {sig:?}"));
+                    continue;
+                }
+                save_case(run, produce, 0, reserve, true, &jumbf, out.len() - png.len(), sig);
+                let state = Reader::from_context(Context::new()).with_stream("image/png", Cursor::new(out)).map(|r| r.validation_state());
+                run.count(&format!("save:direct-readback:{}", match state {
+                    Ok(ValidationState::Valid) | Ok(ValidationState::Trusted) => "valid".to_string(),
+                    Ok(s) => format!("{s:?}"),
+                    Err(_) => "read-error".to_string(),
+                }));
+            }
+        }
+    }
+}
+
 fn run(run: &mut Run, rng: &mut Rng) {
     run.rule = "a case is non-trivial when a reserve/desired size is given, i.e. the padding routine has to decide between exact padding and a size error (distinct by sizes, existing pads and target)".into();
     run_cose(run, &mut rng.fork());
     run_dh(run, &mut rng.fork());
     run_e2e(run, &mut rng.fork());
+    run_e2e_extra(run);
 }
